@@ -7,7 +7,7 @@ NOT_COVERED = {
     "C03": [_SIMD, "streaming over arbitrary lengths: proved per constant length (1, 63, 64 quick; 33, 65, 128, 129 thorough, the multi-block ones one output block per obligation) and per block from every state; induction over the block count is a paper lemma", "salsa2012 / salsa208 stream wrappers: counter carry beyond the first byte (they have no initial-counter form, so it is out of reach of constant-length obligations)"],
     "C04": ["Poly1305 product h*r mod 2^130-5 (non-linear)", "SHA-256 / SHA-512 / BLAKE2b compression functions and their update/final buffering", _SIMD, "donna32 variant"],
     "C05": ["the Montgomery ladder's non-linear field arithmetic (fe25519_mul, sq, invert, mul32: the SAT back end does not finish; add / sub / neg / cswap / cmov / encode / decode ARE decided), ge25519_scalarmult_base, the RFC 7748 value itself", "sandy2x AVX assembly and its C glue", "25.5-bit limb field representation"],
-    "C06": ["Edwards25519 group arithmetic, SHA-512, and scalar arithmetic mod L for general operands (decided only: sc25519_muladd with a in {0,1}, sc25519_reduce for s < 2^256): RFC 8032 test-vector equality and 'every produced signature verifies' are not decided", "pk_to_curve25519", "sign / sign_open overlap is bounded: messages <= 80 bytes, 8 relative offsets each"],
+    "C06": ["Edwards25519 group arithmetic, SHA-512, and scalar arithmetic mod L for general operands (decided only: sc25519_muladd with a in {0,1}, sc25519_reduce for s < 2^256): RFC 8032 test-vector equality and 'every produced signature verifies' are not decided", "pk_to_curve25519: field inversion and product values (operands and checks are decided)", "sign / sign_open overlap is bounded: messages <= 80 bytes, 8 relative offsets each"],
     "C07": ["group / scalar arithmetic exactness (ge25519_*, sc25519_mul / invert, sc25519_reduce for s >= 2^256, sc25519_muladd for a > 1, fe25519_mul / sq, Elligator, Ristretto encode/decode)", "byte equality of expand_message_xmd's output with b_1 || b_2 ..", "from_string / from_string_ro wrappers"],
     "C08": ["equality of Argon2i / Argon2id / scrypt outputs with RFC 9106 / RFC 7914 on any back end", "argon2_encode_string", "raw API upper output bound (needs a 4 GiB buffer)"],
     "C09": ["the induction over arbitrary interleavings of pushes and pulls (paper lemma over the per-call contracts)"],
